@@ -278,3 +278,18 @@ Proof.
   split; [exact H|]. destruct H as (H1 & H2 & H3 & H4 & H5).
   exact (lzw_stream_decodes _ _ _ true H1 H2 H3 H4 H5).
 Qed.
+
+(* several segments, each introduced by a clear-table code *)
+Theorem lzw_segmented_stream_decodes data segs (eod : bool) : Forall byte data -> Forall seg_ok segs ->
+  carries (mkB data 0 8) lzw_init (flat_map (fun seg => 256 :: snd seg) segs ++ (if eod then [257] else [])) ->
+  lzwdecode data = FOk (concat (flat_map fst segs)).
+Proof.
+  intros Hd Hs C. unfold lzwdecode.
+  assert (Hwf : wfb (mkB data 0 8)) by (repeat split; cbn; try lia; exact Hd).
+  assert (Hw : widths_ok lzw_init) by (unfold widths_ok; cbn; lia).
+  destruct (lzw_segments_decode segs lzw_init Hs) as (s_end & F).
+  assert (F' : feed_all lzw_init (flat_map (fun seg => 256 :: snd seg) segs ++ (if eod then [257] else [])) = Some (concat (flat_map fst segs))).
+  { rewrite F. destruct eod; cbn [feed_all]; [unfold lzw_feed; cbn|]; cbn [option_map]; rewrite app_nil_r; reflexivity. }
+  apply (carried_codes_decode _ _ _ _ _ C Hwf Hw F').
+  pose proof (carries_length _ _ _ C Hw Hwf) as L. unfold blen, nbytes in L. cbn [bpos brest] in L. lia.
+Qed.
